@@ -1,6 +1,7 @@
 #!/bin/bash
-# roundf.sh <Cxx> <demo-file> <dest-dir> <test-regex> [suffix=f]: confirm + detect (scratch copy) one seed from /tmp/seedf/<Cxx>, then drop the agent's worktree
+# roundf.sh <Cxx> <demo-file> <dest-dir> <test-regex> [suffix=f]: confirm + detect (scratch copy) one seed delivered by a
+# sub-agent in /tmp/seed<suffix>/<Cxx>, then drop the agent's worktree /tmp/w<suffix>-<Cxx>
 p=$1; s=${5:-f}
 cd /verif
-{ scripts/confirm_seed2.sh confirm $p-$s /tmp/seedf/$p "$2" "$3" "$4" $p; scripts/confirm_seed2.sh detect-scratch $p-$s; } 2>&1 | grep -v conda
-git -C /repo worktree remove --force /tmp/wf-$p 2>/dev/null
+{ scripts/confirm_seed2.sh confirm $p-$s /tmp/seed$s/$p "$2" "$3" "$4" $p; scripts/confirm_seed2.sh detect-scratch $p-$s; } 2>&1 | grep -v conda
+git -C /repo worktree remove --force /tmp/w$s-$p 2>/dev/null
